@@ -30,7 +30,8 @@ Secret2 == B("anotherSecretKeyOfFortyCharacters0123456")
 NowBase == Inst(2015, 8, 30, 12, 36, 0, 0)
 
 BaseCfg == [region |-> B("us-east-1"), service |-> B("service"), now |-> NowBase, s3 |-> FALSE, fold |-> FALSE,
-            always |-> <<>>, ifin |-> <<>>, prefix |-> <<>>, reqimpl |-> "slice", bodykind |-> "bytes"]
+            always |-> <<>>, ifin |-> <<>>, prefix |-> <<>>, reqimpl |-> "slice", bodykind |-> "bytes",
+            provider |-> "scripted"]     \* "fn": the crate's own adapter service_for_signing_key_fn around an async closure
 BaseScript == [readyIn |-> 0, ready |-> "ok", pendIn |-> 0, answer |-> "ok", errKind |-> "InvalidClientTokenId",
                principal |-> 7, secret |-> Secret1]
 
@@ -586,6 +587,7 @@ Dim(k) ==
       [] Family = "akid"     -> V(<<2, 5, 3>>, k)
       [] Family = "zerokey"  -> V(<<2, 4>>, k)
       [] Family = "ioerr"    -> V(<<4, 2, 2>>, k)
+      [] Family = "adapter"  -> V(<<2, 3, 4, 4>>, k)
       [] Family = "logical"  -> V(<<Len(Logical)>>, k)
       \* request, key, position, variant (1 plain lower-case guess, 2 upper-case guess, 3 logger enabled at Trace level)
       [] Family = "ct"       -> V(<<IF Bound = 0 THEN 1 ELSE 3, IF Bound = 0 THEN 1 ELSE 2, Len(CtPositions), 3>>, k)
@@ -742,6 +744,14 @@ BundleOf ==
                 kinds == <<"InvalidClientTokenId", "ExpiredToken", "SignatureDoesNotMatch", "InternalServiceError">>
             IN [b EXCEPT !.script.answer = "sigerr", !.script.errKind = kinds[idx[2]],
                          !.over = [honest |-> TRUE, rawkey |-> [i \in 1..32 |-> 0]]]
+      [] Family = "adapter" ->
+            \* the crate's adapter as provider: answers ok / SignatureError kinds / foreign error, x defects
+            LET b == Bundle0(CarrierOf(idx[1]))
+                outc == <<"ok", "sigerr", "foreign">>
+                kinds == <<"InvalidClientTokenId", "ExpiredToken", "SignatureDoesNotMatch", "InternalServiceError">>
+                dfs == <<0, 14, 16, 8>>
+                b2 == [b EXCEPT !.cfg.provider = "fn", !.script.answer = outc[idx[2]], !.script.errKind = kinds[idx[3]]]
+            IN IF dfs[idx[4]] = 0 THEN b2 ELSE Inject(b2, dfs[idx[4]], 1)
       [] Family = "ioerr" ->
             \* foreign errors of I/O types a retrying implementation would consider transient
             LET b == Bundle0(CarrierOf(idx[3]))
@@ -791,6 +801,7 @@ BundleOf ==
                 L1 == [b.L EXCEPT !.method = Methods[idx[2]], !.version = Versions[idx[3]], !.hdrs = @ \o HdrSets[idx[4]],
                                   !.body = IF idx[5] = 3 THEN <<>> ELSE Bodies[idx[6] + 1], !.query = Queries[idx[4]]]
             IN [b EXCEPT !.L = [L1 EXCEPT !.signed = SignAll(L1)], !.cfg.bodykind = kinds[idx[5]],
+                         !.cfg.provider = IF idx[3] % 2 = 0 THEN "fn" ELSE "scripted",
                          !.script.principal = 100 * idx[2] + 10 * idx[3] + idx[4]]
 
 Case == CaseOfBundle(BundleOf, <<Family>> \o idx)
